@@ -23,6 +23,12 @@ def configs(tier, seed):
                     continue
                 cfgs.append(dict(n=n, K=K, part=list(part), branch=branch, distinct=True, zero_diag=True, positive=True, resub=True,
                                  weight=10 ** n, wstride=5 if n <= 3 else (41 if n == 4 else 2001), sub="sup"))
+    # the training samples standing for permuted rows of a larger table (Node.idx != position)
+    for n, K, ids in ([(3, 2, [3, 0, 2])] if tier == "quick" else [(3, 2, [3, 0, 2]), (3, 3, [1, 4, 0]), (4, 2, [2, 5, 0, 3])]):
+        for part in sup.partitions(n, 2, K):
+            for branch in ("pre", "fn"):
+                cfgs.append(dict(n=n, K=K, part=list(part), branch=branch, distinct=True, zero_diag=True, positive=True, resub=True,
+                                 ids=ids, weight=10 ** n, wstride=5 if n <= 3 else 41, sub="sup"))
     # KNN-supervised: final clustering with force_prototype=True from an arbitrary clean k-NN graph state
     # (densities with ties allowed) leaves every training sample with its own true label
     ksizes = [(2, 1), (3, 1), (3, 2), (4, 1)] if tier == "quick" else [(2, 1), (3, 1), (3, 2), (4, 1), (4, 2), (4, 3), (5, 1)]
